@@ -6,7 +6,7 @@ the same member in the corresponding state (shared by C07 and C09).
 from __future__ import print_function
 
 from sa.model import AnalysisError
-from sa.patheval import Interp, Native, Obj, Sym, Top, UnknownMethod, FuncRef
+from sa.patheval import Interp, Native, Obj, Raise, Sym, Top, UnknownMethod, FuncRef
 from sa.rules.walk import WalkInterp, make_state, element, operator, NextBitmapped
 
 NODE_CLASSES = ('ValueDataNode', 'AssociatedFieldNode', 'FirstOrderStatsNode', 'DifferenceStatsNode', 'SubstitutionNode',
@@ -15,6 +15,12 @@ NODE_CLASSES = ('ValueDataNode', 'AssociatedFieldNode', 'FirstOrderStatsNode', '
 
 
 class LinkMap(Native):
+    """bitmap_links of one subset as the wirer sees it.  keys=None: unknown contents (membership tests fork, every read succeeds);
+    otherwise the flat positions the coder linked on the corresponding path."""
+
+    def __init__(self, keys=None):
+        self.keys = None if keys is None else set(keys)
+
     def __repr__(self):
         return 'LinkMap'
 
@@ -37,6 +43,15 @@ class WireInterp(Interp):
             return None
         return self.NOT_HANDLED
 
+    def cmp(self, op, l, r, frame=None):
+        import ast as _ast
+        if isinstance(op, (_ast.In, _ast.NotIn)) and isinstance(r, LinkMap):
+            if r.keys is None or not isinstance(l, int):
+                return None
+            v = l in r.keys
+            return v if isinstance(op, _ast.In) else not v
+        return Interp.cmp(self, op, l, r, frame)
+
     def construct(self, cname, args, kwargs, node, frame):
         o = Interp.construct(self, cname, args, kwargs, node, frame)
         if cname in NODE_CLASSES:
@@ -46,6 +61,8 @@ class WireInterp(Interp):
     def on_subscript(self, base, idx, node, frame):
         if isinstance(base, LinkMap):
             self.event('linkread', idx)
+            if base.keys is not None and isinstance(idx, int) and idx not in base.keys:
+                raise Raise('KeyError', node, self.where(node, frame))
             return Sym('LINK')
         if isinstance(base, dict) and isinstance(idx, Sym):
             owner = Obj('ValueDataNode', {'index': Sym('OWNER'), '__owner__': True})
@@ -93,11 +110,28 @@ def run_coder(repo, members, state_over, coder='Decoder'):
     return fi, res
 
 
-def run_wirer(repo, members, self_over):
+def run_wirer(repo, members, self_over, link_keys=None):
     fi = repo.method('TemplateData', 'wire_members')
     it = WireInterp(repo)
-    res = it.run_function(fi, lambda: {'self': wirer_self(dict(_fresh(self_over))), 'members': list(members)}, self_class='TemplateData')
+
+    def mk():
+        over = dict(_fresh(self_over))
+        if link_keys is not None:
+            over['bitmap_links'] = LinkMap(link_keys)
+        return {'self': wirer_self(over), 'members': list(members)}
+    res = it.run_function(fi, mk, self_class='TemplateData')
     return fi, res
+
+
+def link_positions(r):
+    """flat positions the coder linked on one path"""
+    pos, n = [], 0
+    for e in r.events:
+        if e[0] == 'emit':
+            n += 1
+        elif e[0] == 'link':
+            pos.append(e[1] if isinstance(e[1], int) and not isinstance(e[1], bool) else n)
+    return tuple(pos)
 
 
 def _fresh(d):
@@ -118,4 +152,23 @@ def outcome_set(res, kinds):
             out.add(shape(r.events, kinds))
         else:
             out.add('raise ' + r.exc.cls)
+    return out
+
+
+def outcome_set_links(res, kinds, link_kind):
+    """As outcome_set, with the flat positions that are linked to an owner: the coder stores bitmap_links[position] when it is
+    about to emit the linked value, the wirer reads bitmap_links[position] for the value it has just consumed."""
+    out = set()
+    for r in res:
+        if not r.ok:
+            out.add('raise ' + r.exc.cls)
+            continue
+        pos, n = [], 0
+        for e in r.events:
+            if e[0] in kinds:
+                n += 1
+            elif e[0] == link_kind:
+                k = e[1]
+                pos.append(k if isinstance(k, int) and not isinstance(k, bool) else (n if link_kind == 'link' else n - 1))
+        out.add(shape(r.events, kinds) + (' links@%s' % ','.join(str(p) for p in pos) if pos else ''))
     return out
